@@ -114,7 +114,7 @@ def run_property(prop, tier, seed, replay_file=None):
                 all_new.append((v, p))
             all_listed += listed
             continue
-        if name.split(":")[0] in ("ids", "burst", "burstc", "burstr", "dup", "withline", "overlap"):
+        if name.split(":")[0] in ("ids", "burst", "burstc", "burstr", "burstm", "dup", "withline", "overlap"):
             # whole-run observations of the real library, each decided by one clause of Abs (TraceAbs):
             #   ids:N     C02 "ids are distinct for distinct spans": ids are a random per-thread prefix plus a counter,
             #             so only many threads can show a clash (Ids)
@@ -129,7 +129,9 @@ def run_property(prop, tier, seed, replay_file=None):
             #   overlap:1   C01: a flush() that overlaps a cycle which has already drained the queues (events validated one by one)
             #   burstr:N    C09 on the built-in capacities: N traces started and finished on one thread with no cycle in between
             #               (every call returns; a trace started after the drain is delivered completely) (BurstR)
-            cmd = [E.HBIN, "burstr", "--spans", str(n), "--out", trace] if mode == "burstr" else [E.HBIN, "overlap", "--out", trace] if mode == "overlap" else [E.HBIN, "withline", "--out", trace] if mode == "withline" else [E.HBIN, "dup", "--out", trace] if mode == "dup" else [E.HBIN, "ids", "--threads", str(n), "--out", trace] if mode == "ids" else \
+            #   burstm:N    C01 / C08: six queues in one sweep, N finished spans in each of four, a root started on the last
+            #               registered and finished on the first registered: all delivered by one flush(), nothing kept
+            cmd = [E.HBIN, "burstm", "--spans", str(n), "--out", trace] if mode == "burstm" else [E.HBIN, "burstr", "--spans", str(n), "--out", trace] if mode == "burstr" else [E.HBIN, "overlap", "--out", trace] if mode == "overlap" else [E.HBIN, "withline", "--out", trace] if mode == "withline" else [E.HBIN, "dup", "--out", trace] if mode == "dup" else [E.HBIN, "ids", "--threads", str(n), "--out", trace] if mode == "ids" else \
                   [E.HBIN, "burst", "--spans", str(n), "--out", trace] + (["--cancelable", "--cross"] if mode == "burstc" else [])
             r = subprocess.run(cmd, stdout=subprocess.PIPE, stderr=subprocess.PIPE, text=True, timeout=600)
             if r.returncode != 0:
@@ -143,6 +145,7 @@ def run_property(prop, tier, seed, replay_file=None):
                                             else "equal properties and events attached several times to one span" if mode == "dup"
                                             else "with_property on a local span that is not the innermost handle (child process)" if mode == "withline"
                                             else "a flush() overlapping a cycle that is held inside report()" if mode == "overlap"
+                                            else ("six queues in one sweep, %d finished spans in each of four, a root across the first and the last" % n) if mode == "burstm"
                                             else ("%d traces started and finished on one thread with no cycle in between, then a trace after the drain" % n) if mode == "burstr"
                                             else ("a backlog of %d finished spans on one queue, then one flush()" % n)))
             for v in new:
